@@ -158,6 +158,79 @@ func c07WalkVsDelete(k backends.Kind, spec c07WalkSpec) (ds []disc) {
 	return ds
 }
 
+// c07RetriedComplete (check "retried-complete"): a completion that the backend refuses (another client
+// deleted the bucket; or, on the file system backends, another client's object stands where the key
+// needs a directory) is sent again once the obstacle is gone. Whatever is acknowledged in the end is
+// the acknowledged parts, joined.
+func c07RetriedComplete(k backends.Kind, route string) (ds []disc) {
+	st := backends.Must(k, backends.Options{})
+	defer st.Close()
+	if err := ensureBucket(st, "bk0"); err != nil {
+		panic(err)
+	}
+	how := fmt.Sprintf("backend=%s route=%s: ", k, route)
+	key := "dir/key"
+	x := s3x.Do(st.Handler, &s3x.Req{Method: "POST", Path: "/bk0/" + key, Query: s3x.Q("uploads", s3x.Bare)})
+	var d s3x.InitiateDoc
+	if x.Status != 200 || x.XML(&d) != nil {
+		panic("harness: initiate: " + x.String())
+	}
+	parts := [][]byte{prog.Pattern(8193, 7), prog.Pattern(100, 8)}
+	var want []byte
+	cb := "<CompleteMultipartUpload>"
+	for i, p := range parts {
+		r := s3x.Do(st.Handler, &s3x.Req{Method: "PUT", Path: "/bk0/" + key, Query: s3x.Q("partNumber", fmt.Sprint(i+1), "uploadId", d.UploadId), Body: p})
+		if r.Status != 200 {
+			panic("harness: part: " + r.String())
+		}
+		cb += fmt.Sprintf("<Part><PartNumber>%d</PartNumber><ETag>%s</ETag></Part>", i+1, xmlEsc(r.Header.Get("ETag")))
+		want = append(want, p...)
+	}
+	cb += "</CompleteMultipartUpload>"
+	complete := func() *s3x.Resp {
+		return s3x.Do(st.Handler, &s3x.Req{Method: "POST", Path: "/bk0/" + key, Query: s3x.Q("uploadId", d.UploadId), Body: []byte(cb)})
+	}
+	// the other client puts the obstacle in place
+	switch route {
+	case "bucket":
+		if r := s3x.Do(st.Handler, &s3x.Req{Method: "DELETE", Path: "/bk0"}); r.Status != 204 {
+			return nil // a backend that keeps the bucket: nothing to retry
+		}
+	case "colliding-key":
+		if r := put(st, "bk0", "dir", []byte("another client's object")); r.Status != 200 {
+			return nil
+		}
+	}
+	first := complete()
+	if first.Panic != "" {
+		return dsc("panic", how+"complete: %s at %s", first.Panic, first.PanicSite)
+	}
+	// ... and takes it away again
+	switch route {
+	case "bucket":
+		if r := s3x.Do(st.Handler, &s3x.Req{Method: "PUT", Path: "/bk0"}); r.Status != 200 {
+			panic("harness: re-create: " + r.String())
+		}
+	case "colliding-key":
+		if r := del(st, "bk0", "dir"); r.Status != 204 {
+			panic("harness: " + r.String())
+		}
+	}
+	second := complete()
+	if second.Panic != "" {
+		return dsc("panic", how+"retried complete: %s at %s", second.Panic, second.PanicSite)
+	}
+	acked := (first.Status == 200 && !bytes.Contains(first.Body, []byte("<Error>"))) || (second.Status == 200 && !bytes.Contains(second.Body, []byte("<Error>")))
+	g := get(st, "bk0", key)
+	switch {
+	case g.Status == 200 && !bytes.Equal(g.Body, want):
+		ds = append(ds, dsc("assembled-object-wrong", how+"first complete answered %d, the retried one %d; the key now reads %d bytes (md5 %s), the acknowledged parts join to %d bytes (md5 %s)", first.Status, second.Status, len(g.Body), md5hex(g.Body), len(want), md5hex(want))...)
+	case acked && route == "colliding-key" && g.Status != 200:
+		ds = append(ds, dsc("assembled-object-missing", how+"a completion was acknowledged (first %d, retried %d) but the key reads %s", first.Status, second.Status, g)...)
+	}
+	return ds
+}
+
 type c07BucketSpec struct {
 	GateAt   int  `json:"gateAt"`
 	Recreate bool `json:"recreate"`
@@ -1275,6 +1348,9 @@ func c07Replay(check string, raw json.RawMessage) ([]disc, error) {
 	if check == "bucket-gated" && rep.Case.Bucket != nil {
 		return c07Classify(rep.Case, c07Filter(c07BucketGated(rep.Case.Backend, rep.Case.Bucket.GateAt, rep.Case.Bucket.Recreate, false))), nil
 	}
+	if check == "retried-complete" && rep.Case.Walk != nil {
+		return c07RetriedComplete(rep.Case.Backend, rep.Case.Walk.Victim), nil
+	}
 	if check == "walk-vs-delete" && rep.Case.Walk != nil {
 		return c07WalkVsDelete(rep.Case.Backend, *rep.Case.Walk), nil
 	}
@@ -1460,6 +1536,16 @@ func c07Run(t *testing.T, c *evid.Collector) {
 func c07RunBucket(c *evid.Collector, kinds []backends.Kind) {
 	if evid.Shard() != 0 {
 		return
+	}
+	for _, k := range kinds {
+		for _, route := range []string{"bucket", "colliding-key"} {
+			if (route == "bucket" && k.IsSingle()) || (route == "colliding-key" && !k.IsFs()) {
+				continue
+			}
+			cs := c07Case{Backend: k, Keys: 1, Walk: &c07WalkSpec{Victim: route}} // (the route travels in the walk spec)
+			c.Case(evid.FP("retried-complete", mustJSON(cs)), true, func() interface{} { return cs }, "backend:"+string(k), "check:retried-complete", "src:fixed")
+			report(c, "retried-complete", c07RetriedComplete(k, route), c07Replayable{Case: cs})
+		}
 	}
 	for _, k := range kinds {
 		for _, v2 := range []bool{false, true} {
